@@ -37,6 +37,10 @@ def followed_by_label(tier):
             for t in (0x7c00, 0x7c40, 0x7d00, 0xc200, 0x17c00):
                 num = head + [("mn", "ORG", [A.hexn(0x7c00)]), ("mn", name, [A.hexn(t)]), ("label", "after"), ("mn", "DW" if mode == 16 else "DD", [A.ident("after")])]
                 out.append((num, {"kind": "branch+label", "form": "branch", "branch": (name, "num", t - 0x7c00)}, mode, num[len(head) + 1]))
+    # strings, also with characters that take several bytes in the source text: the label after them counts bytes
+    for sb in (b"hello", "\u65e5\u672c".encode(), "x\u00e9\u20ac".encode(), b""):
+        prog = [("mn", "ORG", [A.hexn(0x7c00)]), ("mn", "DB", [A.string(sb), A.num(0)]), ("label", "after"), ("mn", "DW", [A.ident("after"), A.ident("$")])]
+        out.append((prog, {"kind": "data+label", "form": "data"}, 16, prog[1]))
     for d in ("DB", "DW", "DD"):
         for n in (1, 2, 7):
             prog = [("mn", "ORG", [A.hexn(0xc200)]), ("mn", d, [A.num(k) for k in range(n)]), ("label", "after"), ("mn", "DW", [A.ident("after"), A.ident("$")])]
